@@ -155,7 +155,7 @@ func c09GoPolicy(site string) seamrt.GoPolicy {
 
 func runC09(r *vfw.Run) {
 	r.W.GoPolicy = c09GoPolicy
-	o := scen.Opts{MinIdent: 2, MaxIdent: 14, CeremonySoon: true}
+	o := scen.Opts{MinIdent: 2, MaxIdent: 14, CeremonySoon: true, SmallShards: true}
 	if r.Tier == "thorough" {
 		o.MaxIdent = 30
 	}
